@@ -582,6 +582,12 @@ class Fn:
                 elif rv["k"] == "agg" and rv.get("agg") == "adt":
                     if rv["variant"] in ("Err", "None") and rk in ("result", "option"):
                         verdict = "rej"
+                    elif rv["variant"] == "Ok" and getattr(self, "nested_reject", False) and rv["ops"]:
+                        # Ok(Err(..)) in a Result<Result<..>>-returning function (opt-in per function)
+                        p = op_place(rv["ops"][0])
+                        vs = self._const_defs(p[0]) if p is not None and not p[1] else None
+                        if vs is not None and vs <= {"Err"}:
+                            verdict = "rej"
                 (rej if verdict == "rej" else acc).add(bi)
         else:
             for bi in self.reachable():
@@ -672,3 +678,59 @@ def path_conditions(fn, bb):
         if len(edges) == 1:
             out.append((sb, edges[0]))
     return out
+
+
+def _places_of_rv(rv):
+    k = rv["k"]
+    out = []
+    if k in ("use", "cast", "un", "repeat"):
+        p = op_place(rv["a"])
+        if p is not None:
+            out.append(p)
+    elif k == "bin":
+        for o in (rv["a"], rv["b"]):
+            p = op_place(o)
+            if p is not None:
+                out.append(p)
+    elif k in ("ref", "rawptr", "discr"):
+        out.append(rv["p"])
+    elif k == "agg":
+        for o in rv["ops"]:
+            p = op_place(o)
+            if p is not None:
+                out.append(p)
+    return out
+
+
+def block_places(fn, bi):
+    """all places read or written in block bi (statements and terminator)"""
+    out = []
+    for s in fn.stmts(bi):
+        if "lhs" in s:
+            out.append(s["lhs"])
+            out += _places_of_rv(s["rv"])
+    t = fn.term(bi)
+    if t["k"] == "call":
+        for a in t["args"]:
+            p = op_place(a)
+            if p is not None:
+                out.append(p)
+        out.append(t["dest"])
+    elif t["k"] == "switch":
+        p = op_place(t["d"])
+        if p is not None:
+            out.append(p)
+    elif t["k"] == "drop":
+        out.append(t["p"])
+    return out
+
+
+def block_fields(fn, bi):
+    fs = set()
+    for p in block_places(fn, bi):
+        for pr in p[1]:
+            if pr.startswith("f") and ":" in pr:
+                nm = pr.split(":", 1)[1]
+                if nm:
+                    fs.add(nm)
+    return fs
